@@ -16,7 +16,7 @@ from typing import Dict, List, Optional, Set, Tuple
 from ..core import AnalysisError, FuncInfo, Repo, dotted
 from .. import au, pat
 from .common import *  # noqa
-from .common import key_of
+from .common import key_of, noreturn_set
 
 ORDER_SENSITIVE = {"connect": "inserts a new key into Instance.conns", "disconnect": "removes a key that a later connect re-inserts at the end of Instance.conns",
                    "add": "inserts into a Module's ordered containers", "flatname": "chooses a collision-avoiding name (depends on what was inserted before)"}
@@ -248,6 +248,11 @@ def check(repo: Repo, R) -> None:
                     f"`{ast.unparse(c)[:60]}` takes an element of the address-hashed set `{stxt}`" + (" where it is known to hold exactly one" if one else " without knowing that it holds exactly one: WHICH element depends on the hash order"),
                     why="with several PDKs registered and no default set, the PDK a design is compiled to changes from one process to the next")
     R.note(f"single-element picks from set-typed attributes: {npick}")
+    # the ports tied to no-connects enter the work list per instance and connection, in the module's own order — not through the
+    # no-connect's address-hashed set of back-references
+    from . import c01 as _c01
+    R.run(_c01.secondary, repo, _shp.Retag(R, lambda r, k: "C12.1-set-iteration-order-not-observable" if k.endswith("ResolvePortRefs.elaborate_module::collect") else None,
+                                          "one NoConn object on several ports: the replacement nets are created (and suffixed `open`, `open_`, ..) in the hash order of its back-references, so names and package bytes change with PYTHONHASHSEED"), noreturn_set(repo))
     # what one compile remembers is gone with its walker: a class-level table outlives it, and which device objects a
     # design gets depends on the unrelated designs compiled before
     from . import c15 as _c15
@@ -330,6 +335,16 @@ def check(repo: Repo, R) -> None:
             if "/tests/" in fi.file.rel or "/test_" in fi.file.rel or "/scripts/" in fi.file.rel:
                 continue
             nf += 1
+            # ... also through what the loop body calls: a loop over a locally built set whose body reaches an order-sensitive
+            # effect on the design (connect / add / a collision-avoiding name) through the call graph
+            defs_ = _all_defs(fi.node)
+            for lp_ in au.walk_no_nested(fi.node):
+                if isinstance(lp_, ast.For) and set_typed(lp_.iter, defs_) and not any(n_ is lp_ for n_, _i, _h in local_set_iterations(fi.node)):
+                    eff_ = effects(repo, fi, ast.Module(lp_.body, []))
+                    sens_ = {k_: v_ for k_, v_ in eff_.items() if k_ in ORDER_SENSITIVE}
+                    if sens_:
+                        R.bad(rule4, key_of(fi, f"iter-{ast.unparse(lp_.iter)[:40]}"), fi.at(lp_), f"`{ast.unparse(lp_.iter)}` is a set built in this function; the loop over it reaches order-sensitive effects {{{'; '.join(f'{k_}: {v_}' for k_, v_ in sens_.items())}}} and no order is imposed",
+                              "the order in which an instance's connections are re-made (and thereby listed in the package) follows the hash order of port names: package bytes change with PYTHONHASHSEED")
             for node, it, how in local_set_iterations(fi.node):
                 R.bad(rule4, key_of(fi, f"iter-{it[:40]}"), fi.at(node), f"`{it}` is a set built in this function and is iterated without an order being imposed: {how}",
                       "the order of connections / ports / names built from it follows str or address hashes, and changes with PYTHONHASHSEED")
